@@ -42,7 +42,7 @@ Proof. intros Hwf Hx Hy. destruct (transpose_refines t Hwf) as [E1 _]. rewrite E
 
 (* ---- witnesses against the pinned code ---- *)
 (* the algebra in which every content id other than 0 is a valued, unspanned, uncovered cell *)
-Definition plain_alg : calg := alg_of [] [].
+Definition plain_alg : calg := alg_of [] [] [].
 (* F21: two rows, the first of three empty cells, the second of one cell "a" (content 5): zip_longest pads with None *)
 Definition f21_table : tstate :=
   {| cols := [(3%nat, 0)]; rows := [(1%nat, (0, [(3%nat, (0, 0))])); (1%nat, (0, [(1%nat, (5, 0))]))] |}.
